@@ -864,8 +864,8 @@ class GCodeBuilder(GCodeCore):
 
         # Track parameters and write the statement
 
-        self._update_axes(target_axes, params)
         self._track_move_params(params)
+        self._update_axes(target_axes, params)
         self.write(statement)
 
     @typechecked
@@ -928,6 +928,29 @@ class GCodeBuilder(GCodeCore):
             yield
         finally:
             self.remove_hook(hook)
+
+    def _transform_move(self, point: Point) -> Tuple[Point, Point]:
+        """Transform target coordinates and determine movement.
+
+        Ensures the absolute target position is within the user defined
+        bounds before the move is prepared, so that a rejected move does
+        not modify the tracked state.
+
+        Args:
+            point: Target position
+
+        Returns:
+            Tuple[Point, Point]: A tuple containing:
+                - Transformed absolute or relative movement vector
+                - Absolute target position before transformation
+
+        Raises:
+            ValueError: If the target position is out of bounds
+        """
+
+        move, target_axes = super()._transform_move(point)
+        self.state._user_bounds.validate("axes", target_axes)
+        return move, target_axes
 
     def _prepare_move(self,
         point: Point, params: ParamsDict,
